@@ -28,8 +28,10 @@ ASSUMPTIONS = [
     "'until the first run starts' = tick ends with System State Stopped before any other state was observed; 'after "
     "every Stop' = tick ends showing Stopped after a run, except the Stopped phase inside a Restart (counted, not "
     "judged: Restart is not Stop); 'while no run is active' = ticks that begin and end Stopped",
-    "'throughout every pause' = ticks that begin and end with System State Paused (pause entered by Pause from user "
-    "or method, timed Pause, or by the engine's error state, which reports Paused)",
+    "'throughout every pause' = ticks that begin and end with System State Paused and lie after the tick in which "
+    "that pause began (pause entered by Pause from user or method, timed Pause, or by the engine's error state, "
+    "which reports Paused). A pause that is undone and re-entered within one tick (Unpause / end of a timed Pause "
+    "followed by an error or a new Pause in the same tick) counts as a new pause beginning in that tick",
     "'the user explicitly commands that output during the pause' = a user-issued UOD command "
     "(execute_control_command_from_user, or a line injected by the user) targeting that register whose execution began at or after the tick in "
     "which the pause began; the register is then exempt until that pause ends. A command (user or method) that was "
@@ -37,9 +39,9 @@ ASSUMPTIONS = [
     "trusted base: engine rig (virtual clock, RecordingHardware, logging UOD callbacks) plus two extra arg-less UOD "
     "commands On1/On2 added through uod_factory",
 ]
-REQUIRED = {"prestart_checks": 2000, "post_stop_checks": 2000, "paused_tick_checks": 2000, "inactive_tick_checks": 2000,
-            "paused_ticks_after_nonsafe": 300, "post_stop_after_nonsafe": 300, "user_exemptions": 20,
-            "error_pauses": 20, "resident_exec_in_pause": 20}
+REQUIRED = {"prestart_checks": 100000, "post_stop_checks": 15000, "paused_tick_checks": 12000,
+            "inactive_tick_checks": 60000, "paused_ticks_after_nonsafe": 8000, "post_stop_after_nonsafe": 5000,
+            "user_exemptions": 200, "error_pauses": 200, "resident_exec_in_pause": 600}
 EXHAUSTIVE_ALL = False
 
 SAFE = {"Out1": 0, "Out2": 0.0}
@@ -175,10 +177,17 @@ def check_case(case, res: Result, kind: str = "?"):
             rig.cmdlog.append((R.TICK[0], "safe", "", "", 0))
             return orig_apply(*a, **kw)
         e._apply_safe_state = _apply_safe_state_probe  # type: ignore
+        err_events: list[tuple] = []               # (tick, position in callback log, paused flag before the error)
+        orig_ses = e.set_error_state
+
+        def _set_error_state_probe(ex):
+            err_events.append((R.TICK[0], len(rig.cmdlog), bool(e._runstate_paused)))
+            return orig_ses(ex)
+        e.set_error_state = _set_error_state_probe  # type: ignore
 
         user_iids: set[str] = set()
         S = {"prev": "Stopped", "run_seen": False, "pause_start": None, "nonsafe_seen": False, "judged_after": False,
-             "wi": 0, "ci": 0, "pause_seq": 0}
+             "wi": 0, "ci": 0, "pause_seq": 0, "pause_kind": None, "last_safe_seq": -1}
         exempt: set[str] = set()
         overridden: dict[str, tuple] = {}          # reg -> (command, iid) resident command that wrote it in this pause
         late_same_tick: dict[str, tuple] = {}      # reg -> method command started after Pause in the pause's first tick
@@ -223,23 +232,35 @@ def check_case(case, res: Result, kind: str = "?"):
             hist.append((k, st, {r: hw.mem.get(r, "<never written>") for r in SAFE}))
             if any(v != SAFE[reg] for reg, v in writes):
                 S["nonsafe_seen"] = True
-            # ---- pause bookkeeping
-            if st == "Paused" and prev != "Paused":
+            # ---- pause bookkeeping. A pause begins when the tick ends Paused after a tick end that was not, and
+            # also *inside* a run of Paused tick ends when the pause was undone and re-entered within one tick
+            # (Unpause or the end of a timed Pause followed by an error in the same tick; Unpause + Pause)
+            new_err = [ev for ev in err_events if ev[0] == k and not ev[2]]
+            begin = None                                 # (kind, position in the callback log)
+            if st == "Paused":
+                if new_err and (last_safe_seq is None or new_err[-1][1] > last_safe_seq):
+                    begin = ("error", new_err[-1][1])
+                elif last_safe_seq is not None:
+                    begin = ("command", last_safe_seq)
+                elif prev != "Paused":
+                    begin = ("error" if any(ev[0] == k for ev in err_events) else "unknown", tick_start_seq)
+            if begin is not None:
                 S["pause_start"] = k
+                S["pause_kind"], S["pause_seq"] = begin
                 exempt.clear()
                 overridden.clear()
                 late_same_tick.clear()
-                if any(t == k for (t, _n, _m) in rig.errors) and k not in safe_applied:
+                if begin[0] == "error":
                     res.count("error_pauses")
+                if prev == "Paused":
+                    res.count("pause_reentered_within_one_tick")
+            if last_safe_seq is not None:
+                S["last_safe_seq"] = last_safe_seq
             if st != "Paused":
                 S["pause_start"] = None
                 exempt.clear()
                 overridden.clear()
                 late_same_tick.clear()
-            if S["pause_start"] == k:
-                # position in the callback log at which this pause took effect: where Pause applied the safe state,
-                # or the start of the tick for a pause entered without it (error state)
-                S["pause_seq"] = last_safe_seq if last_safe_seq is not None else tick_start_seq
             if S["pause_start"] is not None:
                 for name, iid in execs:
                     reg = TARGET.get(name)
@@ -292,7 +313,7 @@ def check_case(case, res: Result, kind: str = "?"):
                             V("C08.not_safe_after_stop", f"tick {k}: Stopped after a run but hardware {reg} = "
                               f"{hw.mem.get(reg, '<never written>')!r}, safe value {sv!r}")
             # ---- (c) throughout every pause
-            if st == "Paused" and prev == "Paused" and S["pause_start"] is not None:
+            if st == "Paused" and prev == "Paused" and S["pause_start"] is not None and k > S["pause_start"]:
                 ps = S["pause_start"]
                 for reg, sv in SAFE.items():
                     res.count("paused_tick_checks")
@@ -309,10 +330,10 @@ def check_case(case, res: Result, kind: str = "?"):
                     resident = [(n, i) for (n, i) in execs if TARGET.get(n) == reg and first_seq[i] < S["pause_seq"]]
                     if resident:
                         res.count("resident_exec_in_pause")
-                    error_pause = any(t == ps for (t, _n, _m) in rig.errors) and not any(t >= ps for t in safe_applied)
+                    error_pause = S["pause_kind"] == "error" and S["last_safe_seq"] < S["pause_seq"]
                     if error_pause:
                         mech = "C08.error_pause_skips_safe_state"
-                        why = (f"pause entered at tick {ps} through Engine.set_error_state ({rig.errors[0][1]}); "
+                        why = (f"pause entered at tick {ps} through Engine.set_error_state ({rig.errors[-1][1]}); "
                                "_apply_safe_state never ran in this pause")
                     elif reg in overridden:
                         name, iid = overridden[reg]
